@@ -121,21 +121,21 @@ fn candidates(focus: F2) -> &'static Vec<u32> {
         let all: Vec<&FnDesc> = c.funcs.iter().filter(|d| simple_sig(d)).collect();
         let ids = |p: &dyn Fn(&FnDesc) -> bool| -> Vec<u32> { all.iter().filter(|d| p(d)).map(|d| d.id).collect() };
         let plain = |d: &FnDesc| !d.is_result() && !d.cache_if && !d.invalidate_on;
-        m.insert("C01", ids(&|d| plain(d) && matches!(d.family, "grid" | "tlru")));
+        m.insert("C01", ids(&|d| plain(d) && matches!(d.family, "grid" | "tlru" | "edge")));
         m.insert("C03", ids(&|d| plain(d) && d.limit.is_none() && d.ttl.is_none() && d.max_memory.is_none() && matches!(d.family, "grid" | "concu")));
-        m.insert("C04", ids(&|d| plain(d) && d.limit.is_some() && matches!(d.family, "grid" | "tlru" | "conc")));
-        m.insert("C05", ids(&|d| plain(d) && d.max_memory.is_some() && matches!(d.family, "grid" | "conc")));
-        m.insert("C06", ids(&|d| plain(d) && d.ttl.is_some() && matches!(d.family, "grid" | "tlru" | "conc")));
-        m.insert("C07", ids(&|d| plain(d) && matches!(d.effective_policy(), Policy::Fifo | Policy::Lru) && (d.limit.is_some() || d.max_memory.is_some()) && d.family == "grid"));
+        m.insert("C04", ids(&|d| plain(d) && d.limit.is_some() && matches!(d.family, "grid" | "tlru" | "conc" | "edge" | "bulk")));
+        m.insert("C05", ids(&|d| plain(d) && d.max_memory.is_some() && matches!(d.family, "grid" | "conc" | "edge")));
+        m.insert("C06", ids(&|d| plain(d) && d.ttl.is_some() && matches!(d.family, "grid" | "tlru" | "conc" | "edge")));
+        m.insert("C07", ids(&|d| plain(d) && matches!(d.effective_policy(), Policy::Fifo | Policy::Lru) && (d.limit.is_some() || d.max_memory.is_some()) && matches!(d.family, "grid" | "bulk")));
         m.insert(
             "C08",
             ids(&|d| plain(d) && matches!(d.effective_policy(), Policy::Lfu | Policy::Arc | Policy::Tlru) && d.flavour != Flavour::Thread && d.limit.is_some() && d.ttl != Some(1) && matches!(d.family, "grid" | "tlru")),
         );
         m.insert("C09", ids(&|d| d.family == "res"));
-        m.insert("C10", ids(&|d| d.family == "cif"));
+        m.insert("C10", ids(&|d| d.family == "cif" || (d.family == "inv" && d.cache_if)));
         m.insert("C11", ids(&|d| d.family == "inv"));
         m.insert("C12", ids(&|d| d.flavour != Flavour::Thread && matches!(d.family, "reg" | "conc" | "concu")));
-        m.insert("C13", ids(&|d| d.flavour != Flavour::Thread && ((d.family == "reg") || (d.family == "conc" && d.ttl.is_none()) || (plain(d) && d.family == "grid" && (d.limit.is_some() || d.max_memory.is_some()) && d.ttl.is_none()))));
+        m.insert("C13", ids(&|d| d.flavour != Flavour::Thread && ((d.family == "reg") || (d.family == "conc" && d.ttl.is_none()) || (plain(d) && matches!(d.family, "grid" | "bulk") && (d.limit.is_some() || d.max_memory.is_some()) && d.ttl.is_none()))));
         m.insert("C15", ids(&|d| d.flavour != Flavour::Thread && matches!(d.family, "reg" | "grid" | "concu" | "res" | "inv")));
         m.insert("C16", ids(&|_| true));
         m.insert("C19", c.funcs.iter().filter(|d| d.gates == 0).map(|d| d.id).collect());
@@ -163,14 +163,17 @@ pub fn decode(bytes: &[u8], focus: F2, tier: Tier) -> MacroCase {
             fns.push(id);
         }
     }
-    let max_cap = fns.iter().map(|id| corpus.by_id(*id).limit.unwrap_or(2)).max().unwrap_or(2);
+    if let Some(bid) = fns.iter().copied().find(|id| corpus.by_id(*id).family == "bulk") {
+        return decode_bulk(&mut d, bid, focus);
+    }
+    let max_cap = fns.iter().map(|id| corpus.by_id(*id).limit.unwrap_or(2).min(6)).max().unwrap_or(2);
     let n_keys = (max_cap + 1 + d.choose(3)).min(8) as u8;
     let max_ops = match tier {
         Tier::Quick => 30,
         Tier::Thorough => 50,
     };
     let n_ops = 4 + d.choose(max_ops);
-    let ttl_ns: i64 = fns.iter().filter_map(|id| corpus.by_id(*id).ttl).next().map(|t| t as i64 * SEC).unwrap_or(SEC);
+    let ttl_ns: i64 = fns.iter().filter_map(|id| corpus.by_id(*id).ttl).next().map(crate::model::ttl_ns).map(|t| if t > 1000 * SEC { 3 * SEC } else { t }).unwrap_or(SEC);
     // weights: call, advance, invwith, invallwith, group, statsreset
     let w: [u32; 6] = match focus {
         F2::C01 => [16, 3, 2, 1, 1, 0],
@@ -232,6 +235,45 @@ pub fn decode(bytes: &[u8], focus: F2, tier: Tier) -> MacroCase {
         ops.push(op);
     }
     MacroCase { fns, n_keys, ops }
+}
+
+/// A larger cache (limit 40 / 100) driven in phases: fills over ascending or strided keys,
+/// bursts of random calls, predicate sweeps that remove many entries at once, group
+/// invalidation, refills that overflow.
+fn decode_bulk(d: &mut Dec, fid: u32, focus: F2) -> MacroCase {
+    let corpus = static_corpus();
+    let fd = corpus.by_id(fid);
+    let cap = fd.limit.unwrap_or(40);
+    let n_keys = (cap + 20 + d.choose(30)).min(250);
+    let sc = CallScript { ok: true, cif: true, inv: false };
+    let mut ops = Vec::new();
+    let mut next = 0usize;
+    let n_phases = 3 + d.choose(5);
+    let shared = fd.flavour != Flavour::Thread;
+    for ph in 0..n_phases {
+        let kind = if ph == 0 { 0 } else { d.weighted(&[4, 3, if shared && !matches!(focus, F2::C07) { 4 } else { 0 }, if shared && matches!(focus, F2::C13 | F2::C12 | F2::C04) { 1 } else { 0 }]) };
+        match kind {
+            0 => {
+                // fill with fresh keys (ascending or strided)
+                let n = [cap / 2, cap, cap + 3, cap / 4 + 1, 7][d.choose(5)].max(1);
+                let stride = [1usize, 1, 3, 7][d.choose(4)];
+                for i in 0..n {
+                    let k = (next + i * stride) % n_keys;
+                    ops.push(MOp::Call { f: 0, k: k as u8, sc });
+                }
+                next = (next + n) % n_keys;
+            }
+            1 => {
+                let n = 3 + d.choose(12);
+                for _ in 0..n {
+                    ops.push(MOp::Call { f: 0, k: d.choose16(n_keys) as u8, sc });
+                }
+            }
+            2 => ops.push(MOp::InvWith { f: 0, mask: d.u16() }),
+            _ => ops.push(MOp::Group { kind: 't', s: "bulk".to_string() }),
+        }
+    }
+    MacroCase { fns: vec![fid], n_keys: n_keys as u8, ops }
 }
 
 pub fn describe(bytes: &[u8], focus: F2, tier: Tier) -> Value {
@@ -713,7 +755,7 @@ pub fn decode_c14(bytes: &[u8], tier: Tier) -> ThreadCase {
         }
     }
     let n_threads = 2 + d.choose(3) as u8;
-    let max_cap = fns.iter().map(|id| corpus.by_id(*id).limit.unwrap_or(2)).max().unwrap_or(2);
+    let max_cap = fns.iter().map(|id| corpus.by_id(*id).limit.unwrap_or(2).min(6)).max().unwrap_or(2);
     let n_keys = (max_cap + 1 + d.choose(2)).min(6) as u8;
     let n_ops = 6 + d.choose(match tier {
         Tier::Quick => 30,
